@@ -26,17 +26,39 @@ BUDGET = {'quick': 300, 'thorough': 1500}
 
 # ---- calibration (unchanged tree, commit 7c19a04, configuration `stubs`; see _calibration_note)
 # maximum work of one query observed over family (a), both tiers, per query method
-CAL_MAX_STEPS = {}          # {tier: {method: steps}}
-CAL_MAX_INFERS = {}         # {tier: count}
-# maximum work of one query at n = 64 observed per scaling family
-CAL_STEPS64 = {}
+CAL_MAX_STEPS = {           # {tier: {method: steps}}
+    'quick': {'complete': 666009, 'get_references': 107502, 'get_signatures': 45234,
+              'goto': 32066, 'help': 31572, 'infer': 664825},
+}
+CAL_MAX_INFERS = {'quick': 2201}         # {tier: count}; over (a) and (b)
+# maximum work of one query at the largest n (64; rings: 40) observed per scaling family
+CAL_STEPS64 = {
+    'assign_chain': 40509, 'assign_diamonds': 47289, 'attr_diamonds': 65955, 'call_chain': 4344,
+    'call_tree': 45831, 'decorator_chain': 41311, 'diamonds': 417156, 'import_chain': 43998,
+    'inherit_chain': 74688, 'instance_tree': 111264, 'nested_closures': 5004,
+    'nested_containers': 46009, 'ring_A': 28634, 'ring_C': 49517, 'ring_D': 50971,
+    'ring_G': 28131, 'ring_H': 315316, 'ring_I': 24903, 'ring_L': 118412, 'ring_P': 89850,
+    'ring_T': 92018, 'ring_X': 84274}
+# maximum work of one query over all n observed per scaling family (hard-stop budget)
+CAL_STEPS_FAM = {
+    'assign_chain': 40509, 'assign_diamonds': 47289, 'attr_diamonds': 65955, 'call_chain': 35546,
+    'call_tree': 86978, 'decorator_chain': 41311, 'diamonds': 417156, 'import_chain': 43998,
+    'inherit_chain': 74688, 'instance_tree': 364530, 'nested_closures': 36685,
+    'nested_containers': 46009, 'ring_A': 28634, 'ring_C': 49517, 'ring_D': 50971,
+    'ring_G': 28131, 'ring_H': 315316, 'ring_I': 24903, 'ring_L': 118412, 'ring_P': 89850,
+    'ring_T': 92018, 'ring_X': 84274}
 FACTOR = 20
 GROWTH = 8              # steps(2n) <= GROWTH * steps(n) + GROWTH_C   for n >= 8
 GROWTH_C = 5000
 NS = [1, 2, 4, 8, 16, 32, 64]
+NS_RING = [1, 2, 4, 8, 16, 32, 40]   # the property speaks of cyclic graphs of up to 40 nodes
+
+
+def ns_of(family):
+    return NS_RING if family.startswith('ring_') else NS
 WATCHDOG_S = 120          # CPU seconds of the worker per program (ITIMER_VIRTUAL: load independent)
 WATCHDOG_WALL_S = 1800    # last resort for a worker blocked without using CPU
-STOP_AFTER_VIOLATIONS = 40
+STOP_AFTER_VIOLATIONS = 1     # stop after the first stage that produced an unlisted violation
 
 METHODS = ['infer', 'goto', 'help', 'get_references', 'get_signatures', 'complete']
 
@@ -56,6 +78,10 @@ _TIER = ['quick']
 
 def budget64(family):
     return FACTOR * CAL_STEPS64.get(family, max(CAL_STEPS64.values() or [50000]))
+
+
+def budget_family(family):
+    return FACTOR * CAL_STEPS_FAM.get(family, max(CAL_STEPS_FAM.values() or [50000]))
 
 
 # ----------------------------------------------------------------------------- step counter
@@ -334,7 +360,7 @@ def _work(task):
                 if limit is None:
                     limit = budget_for(method, task.get('tier'))
                     if task['kind'] == 'scale':
-                        limit = max(limit, budget64(task['family']))
+                        limit = budget_family(task['family'])
                 elif limit == 0:
                     limit = None     # calibration: count only
                     calibrating = True
@@ -480,7 +506,7 @@ def _levels(tier):
 
 def _scale_tasks():
     return [{'kind': 'scale', 'id': 's:%s:%d' % (fam, n), 'family': fam, 'n': n, 'lean': True}
-            for fam in gen.SCALING for n in NS]
+            for fam in gen.SCALING for n in ns_of(fam)]
 
 
 # ----------------------------------------------------------------------------- run
@@ -495,8 +521,9 @@ def _scaling_verdicts(tables, emit):
             for rank, (label, steps) in enumerate(tab):
                 meth = label.split(':')[1].split('@')[0]
                 seqs.setdefault((rank, meth), {})[n] = (steps, label)
+        top = ns_of(fam)[-1]
         for (rank, meth), col in sorted(seqs.items()):
-            for n in NS:
+            for n in ns_of(fam):
                 if n < 8 or n not in col or 2 * n not in col:
                     continue
                 checked += 1
@@ -508,11 +535,12 @@ def _scaling_verdicts(tables, emit):
                           'n': n, 'rule': 'steps(2n) <= %d*steps(n) + %d' % (GROWTH, GROWTH_C),
                           'series': {str(k): v[0] for k, v in sorted(col.items())}},
                          {'scaling': fam, 'rank': rank, 'n': n})
-            if 64 in col and CAL_STEPS64 and col[64][0] > budget64(fam):
-                emit('steps64-over-budget@%s' % fam, 's:%s|q%d:%s|n=64' % (fam, rank, meth),
-                     {'family': fam, 'query': col[64][1], 'steps_64': col[64][0],
+            if top in col and CAL_STEPS64 and col[top][0] > budget64(fam):
+                emit('steps-at-top-n-over-budget@%s' % fam,
+                     's:%s|q%d:%s|n=%d' % (fam, rank, meth, top),
+                     {'family': fam, 'query': col[top][1], 'steps': col[top][0],
                       'budget': budget64(fam)},
-                     {'scaling': fam, 'rank': rank, 'n': 64})
+                     {'scaling': fam, 'rank': rank, 'n': top})
     return checked
 
 
@@ -581,64 +609,15 @@ def run(ctx):
                       {'task': {k: v for k, v in t.items() if k not in ('lean', 'limit')},
                        'probe': f['probe']})
 
-    # ---- (a) definition graphs
     level_cost = {}
     only_levels = os.environ.get('JV_C15_LEVELS')      # development aid: "0,2,s"
-    all_levels = _levels(ctx.tier)
-    if only_levels:
-        all_levels = [lv for k, lv in enumerate(all_levels) if str(k) in only_levels.split(',')]
-    for name, ids in all_levels:
-        cpu_before = list(cpu)
-        if stopped_early:
-            exhaustive = False
-            continue
-        if ctx.time_left() < 10:
-            exhaustive = False
-            ctx.note('level "%s" not started (time cap)' % name)
-            continue
-        tasks = [{'kind': 'graph', 'id': gid, 'lean': True, 'tier': ctx.tier} for gid in ids]
-        if calibrate:
-            for t in tasks:
-                t['limit'] = 0
-        pres = pool.run(tasks, 'jv.props.c15:_work', init='jv.props.c15:_init',
-                        seed=ctx.seed, deadline=ctx.deadline, tag='c15')
-        ctx.absorb(pres, name)
-        for i, t in enumerate(tasks):
-            if i in pres.crashed:
-                violation('WorkerDied@program', t['id'],
-                          {'exit': pres.crashed[i], 'files': gen.render(*gen.parse_graph_id(
-                              t['id']))['files']}, {'task': {'kind': 'graph', 'id': t['id'], 'tier': ctx.tier}})
-                continue
-            r = pres.results.get(i)
-            if r is None:
-                continue
-            atoms, _ = gen.parse_graph_id(t['id'])
-            for k in {k for _, _, k in atoms}:
-                kind_hits[k] += 1
-                if r.get('nonempty'):
-                    kind_live[k] += 1
-            absorb_result(t, r, name)
-        if pres.skipped:
-            exhaustive = False
-            ctx.note('level "%s": %d of %d programs not explored (time cap)'
-                     % (name, len(pres.skipped), len(tasks)))
-        else:
-            done_levels.append('%s: %d programs' % (name, len(tasks)))
-        if tasks:
-            mid = tasks[len(tasks) // 2]['id']
-            samples.append({'level': name, 'id': mid,
-                            'files': gen.render(*gen.parse_graph_id(mid))['files']})
-        level_cost[name] = {'programs': len(tasks), 'worker_cpu_s': round(cpu[0] - cpu_before[0], 1),
-                            'steps': cpu[1] - cpu_before[1]}
-        if nviol >= STOP_AFTER_VIOLATIONS and not calibrate:
-            stopped_early = True
-            ctx.note('stopping after level "%s": %d violations already' % (name, nviol))
-
-    # ---- (b) scaling families
+    # ---- (b) scaling families (first: cheap, and the only place where the execution limits
+    #      and the per-scope inference cap are the last line of defence)
     tables = {}
     obs64 = {}
+    obsfam = {}
     nscale = 0
-    if not stopped_early and ctx.time_left() > 10 and (not only_levels or 's' in only_levels):
+    if ctx.time_left() > 10 and (not only_levels or 's' in only_levels):
         cpu_before = list(cpu)
         tasks = _scale_tasks()
         for t in tasks:
@@ -665,23 +644,84 @@ def run(ctx):
             absorb_result(t, absorb_obs, 'scaling')
             if not r.get('watchdog'):
                 tables.setdefault(t['family'], {})[t['n']] = list(r['table'].items())
-                if t['n'] == 64 and r['table']:
+                if r['table']:
+                    obsfam[t['family']] = max(obsfam.get(t['family'], 0),
+                                              max(r['table'].values()))
+                if t['n'] == ns_of(t['family'])[-1] and r['table']:
                     obs64[t['family']] = max(r['table'].values())
         if pres.skipped:
             exhaustive = False
             ctx.note('scaling: %d of %d programs not explored (time cap)'
                      % (len(pres.skipped), len(tasks)))
         else:
-            done_levels.append('scaling: %d families x n in %s' % (len(gen.SCALING), NS))
+            done_levels.append('scaling: %d families x n in %s (rings: %s)'
+                               % (len(gen.SCALING), NS, NS_RING))
         ngrowth = _scaling_verdicts(tables, violation)
         samples.append({'level': 'scaling', 'id': 's:call_tree:2',
                         'files': gen.scaling('call_tree', 2)['files']})
-        level_cost['scaling'] = {'programs': len(tasks), 'worker_cpu_s': round(cpu[0] - cpu_before[0], 1),
+        level_cost['scaling'] = {'programs': len(tasks),
+                                 'worker_cpu_s': round(cpu[0] - cpu_before[0], 1),
                                  'steps': cpu[1] - cpu_before[1]}
+        if nviol >= STOP_AFTER_VIOLATIONS and not calibrate:
+            stopped_early = True
+            ctx.note('stopping after the scaling families: %d violations already' % nviol)
     else:
         exhaustive = False
         ngrowth = 0
         ctx.note('scaling families not run')
+
+    # ---- (a) definition graphs
+    all_levels = _levels(ctx.tier)
+    if only_levels:
+        all_levels = [lv for k, lv in enumerate(all_levels) if str(k) in only_levels.split(',')]
+    for name, ids in all_levels:
+        cpu_before = list(cpu)
+        if stopped_early:
+            exhaustive = False
+            continue
+        if ctx.time_left() < 10:
+            exhaustive = False
+            ctx.note('level "%s" not started (time cap)' % name)
+            continue
+        tasks = [{'kind': 'graph', 'id': gid, 'lean': True, 'tier': ctx.tier} for gid in ids]
+        if calibrate:
+            for t in tasks:
+                t['limit'] = 0
+        pres = pool.run(tasks, 'jv.props.c15:_work', init='jv.props.c15:_init',
+                        seed=ctx.seed, deadline=ctx.deadline, tag='c15')
+        ctx.absorb(pres, name)
+        for i, t in enumerate(tasks):
+            if i in pres.crashed:
+                violation('WorkerDied@program', t['id'],
+                          {'exit': pres.crashed[i],
+                           'files': gen.render(*gen.parse_graph_id(t['id']))['files']},
+                          {'task': {'kind': 'graph', 'id': t['id'], 'tier': ctx.tier}})
+                continue
+            r = pres.results.get(i)
+            if r is None:
+                continue
+            atoms, _ = gen.parse_graph_id(t['id'])
+            for k in {k for _, _, k in atoms}:
+                kind_hits[k] += 1
+                if r.get('nonempty'):
+                    kind_live[k] += 1
+            absorb_result(t, r, name)
+        if pres.skipped:
+            exhaustive = False
+            ctx.note('level "%s": %d of %d programs not explored (time cap)'
+                     % (name, len(pres.skipped), len(tasks)))
+        else:
+            done_levels.append('%s: %d programs' % (name, len(tasks)))
+        if tasks:
+            mid = tasks[len(tasks) // 2]['id']
+            samples.append({'level': name, 'id': mid,
+                            'files': gen.render(*gen.parse_graph_id(mid))['files']})
+        level_cost[name] = {'programs': len(tasks),
+                            'worker_cpu_s': round(cpu[0] - cpu_before[0], 1),
+                            'steps': cpu[1] - cpu_before[1]}
+        if nviol >= STOP_AFTER_VIOLATIONS and not calibrate:
+            stopped_early = True
+            ctx.note('stopping after level "%s": %d violations already' % (name, nviol))
 
     series = {}
     for fam, by_n in tables.items():
@@ -691,6 +731,7 @@ def run(ctx):
         print('CAL_MAX_STEPS[%r] = %r' % (ctx.tier, {m: v[0] for m, v in sorted(obs_max.items())}))
         print('CAL_MAX_INFERS[%r] = %r' % (ctx.tier, obs_max_infers))
         print('CAL_STEPS64 = %r' % dict(sorted(obs64.items())))
+        print('CAL_STEPS_FAM = %r' % dict(sorted(obsfam.items())))
     ctx.coverage.update({
         'states': states, 'transitions': transitions, 'evaluations': transitions,
         'distinct_nontrivial': len(classes),
@@ -708,7 +749,8 @@ def run(ctx):
         'calibrated_max_steps': CAL_MAX_STEPS, 'calibrated_max_infers': CAL_MAX_INFERS,
         'calibrated_steps64': CAL_STEPS64, 'factor': FACTOR,
         'observed_max_steps_this_run': obs_max, 'observed_max_infers_this_run': obs_max_infers,
-        'observed_steps64_this_run': obs64,
+        'observed_steps64_this_run': obs64, 'observed_family_max_this_run': obsfam,
+        'calibrated_family_max': CAL_STEPS_FAM,
         'scaling_max_steps_per_n': series,
         'worker_cpu_s': round(cpu[0], 1), 'total_steps': cpu[1], 'cost_per_level': level_cost,
         'scaling_programs': nscale, 'growth_inequalities_checked': ngrowth,
@@ -777,7 +819,7 @@ def replay(case):
     if 'scaling' in case:
         fam, rank, n = case['scaling'], case['rank'], case['n']
         tables = {fam: {}}
-        for k in ([n, 2 * n] if n < 64 else [64]):
+        for k in ([n, 2 * n] if n != ns_of(fam)[-1] else [n]):
             t = {'kind': 'scale', 'id': 's:%s:%d' % (fam, k), 'family': fam, 'n': k}
             r, status = _in_child(_replay_task, t)
             if r is None:
